@@ -70,6 +70,10 @@ func (actorSelf *ActorDef[T]) Send(message T) {
 	}
 	verifAt("actor.Send.checked")
 
+	// Close() may close the channel at any moment(even while this send is blocked): drop the message then
+	defer func() {
+		recover()
+	}()
 	actorSelf.ch <- message
 }
 
